@@ -2,7 +2,7 @@
    Statements only; proofs in Conn/IdsQuota.v (on top of the allocator refinement of C20), Conn/WfInv.v and
    Conn/Own.v, Conn/OwnFrame.v, Conn/OwnStep.v, Conn/OwnUndet.v (the ownership invariant), Conn/Account.v.
    Nothing else may be added to this file. *)
-From MQ Require Import Base.Prelude Alloc.Alloc Alloc.AllocProofs Conn.Types Conn.ConnRecord Conn.Step Conn.Run Conn.IdsQuota Conn.WfInv Conn.Own Conn.OwnFrame Conn.OwnStep Conn.OwnUndet Conn.Account Corr.ConnTrace.
+From MQ Require Import Base.Prelude Alloc.Alloc Alloc.AllocProofs Conn.Types Conn.ConnRecord Conn.Step Conn.Run Conn.IdsQuota Conn.WfInv Conn.Own Conn.OwnFrame Conn.OwnStep Conn.OwnUndet Conn.Account Corr.ConnTrace Conn.PairQos Conn.PairSeq Conn.PairSeqMixed Conn.PairSeqMixed2 Conn.PairSeqMixedIds.
 
 (* WFpid (the interval allocator's representation invariant over [1, idmax]) holds initially and
    is re-established by each of the id-management calls below. *)
@@ -181,6 +181,17 @@ Theorem C08_release_accounting_session_start : forall g c o c' e r,
   ((forall id, is_used c' id = is_used c id && negb (inb id (released e))) \/ (forall id, is_used c' id = false)).
 Proof. exact step_release_accounting_any. Qed.
 Print Assumptions C08_release_accounting_session_start.
+
+(* BETWEEN TWO ENDPOINTS (Conn/PairSeqMixedIds.v): over any sequence of complete exchanges of any QoS mix, either side publishing,
+   no identifier leaks - the set of identifiers in use on each side after the run is the set in use before it *)
+Theorem C08_sequences_leak_no_identifier : forall gA gB l a b,
+  pair_inv2 gA gB a b -> Forall (fun i => v311_any (item_pkt i)) l ->
+  match run_mixed2 gA gB a b l with
+  | Done2 a' b' _ _ => (forall y, is_used a' y = is_used a y) /\ (forall y, is_used b' y = is_used b y)
+  | _ => True
+  end.
+Proof. exact run_mixed2_used. Qed.
+Print Assumptions C08_sequences_leak_no_identifier.
 
 (* C08_partial: on the MODEL side what is left to the monitor alone is the no-leak-on-close clause as a
    statement about ownership ghosts (which identifiers the application is responsible for); the implementation
